@@ -369,6 +369,10 @@ def _one(run, m, dirn, expected):
 
 def replay(run, rep):
     c = rep['case']
+    if 'case' not in c:
+        export_histories(run)          # (a violation of the export-history part: that part is re-run as a whole)
+        run.states = run.transitions = 1
+        return
     exp = 'T' if c['case']['mut'] == 'copy' else 'F'
     if c['case']['mut'] == 'perturb':
         exp = 'T' if c['case']['e'] <= -3 else ('F' if c['case']['e'] >= 3 else 'either')
